@@ -109,6 +109,22 @@ def run(pid, tier, seed):
     rep.extra["schedules"] = {k: {"dfs": v[0], "random": v[1], "exhaustive": bool(v[2])} for k, v in st.items()}
     rep.extra["schedules_total"] = sum(v[0] + v[1] for v in st.values())
     lines = vlib.read_ndjson(tp)
+    # free-running writers/readers with real parallelism (no scheduler, uninstrumented copy)
+    repo2 = vlib.repo_copy()
+    vlib.inject(repo2, {"vrt": "internal/vrt", "buffer": "packetio"})
+    tp2 = os.path.join(d, "t2.trace")
+    rc, out, _ = vlib.go_test(repo2, "./packetio/", "^TestVerifBufferConcurrent$", synctest=False, timeout=900,
+                              env={"VERIF_TRACE": tp2, "VERIF_SEED": seed, "VERIF_RUNS": 12 if not big else 60,
+                                   "VERIF_N": 60 if not big else 150})
+    if rc != 0:
+        kind = vlib.classify_go_failure(out)
+        if kind == "sut-panic":
+            rep.violation({"go_test_output": out[-4000:]}, "code under test panicked:\n" + out[-1500:])
+            return rep.finish()
+        raise vlib.Inconclusive("free-running harness failed:\n" + out[-3000:])
+    free = vlib.read_ndjson(tp2)
+    rep.extra["free_running_events"] = len(free)
+    lines += free
     rep.extra["trace_events"] = len(lines)
     n_ok, fails, nst = vlib.validate_scenarios("buffer", "TraceBufferConc", "TraceBufferConc.cfg", lines,
                                                batch=40000, heap="8g")
